@@ -37,7 +37,12 @@ pub fn apq(args: &Value) -> Outcome {
     for (i, op) in args["ops"].as_array().unwrap().iter().enumerate() {
         let q = op["q"].as_u64().map(|x| x as usize);
         let ver = op["ver"].as_i64().unwrap_or(1);
-        let hash: Option<String> = match &op["h"] { Value::Null => None, Value::String(_) => Some("00".repeat(32)), v => Some(hex_sha(DOCS[v.as_u64().unwrap() as usize].0)) };
+        let hash: Option<String> = match &op["h"] { Value::Null => None, Value::String(_) => Some("00".repeat(32)),
+            // a near miss of a document's digest: only the EXACT digest identifies the document
+            Value::Object(o) => { let full = hex_sha(DOCS[o["of"].as_u64().unwrap() as usize].0);
+                Some(match o["m"].as_str().unwrap() { "empty" => String::new(), "prefix" => full[..8].to_string(), "prefix63" => full[..63].to_string(), "upper" => full.to_uppercase(),
+                    "pad" => format!("{}0", full), "flip" => { let mut b = full.into_bytes(); let l = b.len() - 1; b[l] = if b[l] == b'0' { b'1' } else { b'0' }; String::from_utf8(b).unwrap() }, _ => full }) }
+            v => Some(hex_sha(DOCS[v.as_u64().unwrap() as usize].0)) };
         let mut req = Request::new(q.map(|x| DOCS[x].0).unwrap_or(""));
         if let Some(h) = &hash { req.extensions.insert("persistedQuery".to_string(), value!({"version": ver, "sha256Hash": h.clone()})); }
         let resp = schema.execute(req).now_or_never().unwrap();
@@ -62,13 +67,18 @@ pub fn inputs(seed: u64) -> impl Iterator<Item = Value> {
         json!({"ops": [{"q": 0, "h": 1}, {"q": null, "h": 1}, {"q": null, "h": 0}]}),
         json!({"ops": [{"q": 0, "h": "bad"}, {"q": null, "h": "bad"}]}),
         json!({"ops": [{"q": 0, "h": 0, "ver": 2}, {"q": null, "h": 0}]}),
+        json!({"ops": [{"q": 0, "h": {"of": 0, "m": "prefix"}}, {"q": null, "h": 0}]}),
+        json!({"ops": [{"q": 1, "h": {"of": 1, "m": "empty"}}, {"q": null, "h": 1}]}),
+        json!({"ops": [{"q": 2, "h": {"of": 2, "m": "prefix63"}}, {"q": null, "h": 2}, {"q": 2, "h": {"of": 2, "m": "pad"}}, {"q": null, "h": 2}]}),
+        json!({"ops": [{"q": 3, "h": {"of": 3, "m": "upper"}}, {"q": null, "h": 3}, {"q": 3, "h": {"of": 3, "m": "flip"}}, {"q": null, "h": 3}]}),
+        json!({"ops": [{"q": 0, "h": 0}, {"q": null, "h": {"of": 0, "m": "prefix"}}, {"q": null, "h": {"of": 0, "m": "pad"}}, {"q": 1, "h": 0}, {"q": null, "h": 0}]}),
         json!({"ops": [{"q": 2, "h": 2}, {"q": 3, "h": 3}, {"q": null, "h": 2}, {"q": null, "h": 3}, {"q": 1, "h": null}]}),
     ];
     let mut r = Rng(seed);
     for _ in 0..40 {
         let n = 2 + r.below(7);
         let ops: Vec<Value> = (0..n).map(|_| { let q = if r.below(2) == 0 { Value::Null } else { json!(r.below(4)) };
-            let h = match r.below(6) { 0 => Value::Null, 1 => json!("bad"), _ => json!(r.below(4)) }; json!({"q": q, "h": h, "ver": if r.below(8) == 0 { 2 } else { 1 }}) }).collect();
+            let h = match r.below(8) { 0 => Value::Null, 1 => json!("bad"), 2 => { let m = ["empty", "prefix", "prefix63", "upper", "pad", "flip"][r.below(6) as usize]; json!({"of": r.below(4), "m": m}) }, _ => json!(r.below(4)) }; json!({"q": q, "h": h, "ver": if r.below(8) == 0 { 2 } else { 1 }}) }).collect();
         out.push(json!({"ops": ops}));
     }
     out.into_iter()
